@@ -359,6 +359,20 @@ func (e *Enc) anyReg(env *evalEnv, text string) (r *regInfo, err error) {
 	if strings.HasPrefix(text, "[]") {
 		return e.elemReg(env.typeFromText(text[2:])), nil
 	}
+	if g, ok := e.L.contracts.ghosts[text]; ok && g.isVar {
+		// `any <ghost variable>`: every entry of the ghost variable
+		if r, ok := e.regs["G:"+text]; ok {
+			return r, nil
+		}
+		// not touched yet in this unit: evaluate a dummy application to create the register
+		if len(g.params) == 1 {
+			pt := env.typeFromTextGeneric(g.params[0].typ, SV{})
+			rt := env.typeFromTextGeneric(g.result, SV{})
+			if pt != nil && rt != nil {
+				return e.ghostReg(text, e.sortOf(pt), e.sortOf(rt), rt), nil
+			}
+		}
+	}
 	if strings.HasPrefix(text, "*") {
 		return e.ptrReg(env.typeFromText(text[1:])), nil
 	}
